@@ -19,7 +19,10 @@ CartesianProduct / Quotient / DisjointUnion / Complement code:
   as the empty siblings of the one non-empty child of an equivalence rule.
 
 Derived rule forms (EquivalenceRule, its reverse, EquivalencePathRule) are built
-by build_derived from both universes: see its docstring.
+by build_derived from both universes: see its docstring.  Since fix 25e10f1 of
+/repo a CartesianProductStrategy rule with ONE factor counts as an equivalence
+step and in reverse; paths may also be made of RAW one-child Rule / ReverseRule
+objects (spec["raw"]), which is what specification_extrator.py puts in a path.
 """
 from collections import Counter
 from functools import lru_cache
@@ -283,10 +286,15 @@ def derived_plan(spec):
       strat     0 if the strategy object the rule inherits is a DisjointUnionStrategy, 1 a CartesianProductStrategy
       handed    the ONE class the rule hands to strategy.shifts: 4 the non-empty child, 5 the original parent,
                 6 the last class of the path
-      readable  False if a step is an equivalence of a product: its constructor raises NotImplementedError,
-                get_terms cannot run and only shifts() is observable
+      readable  False iff some REVERSE step over a ONE-factor product is wrapped in an EquivalenceRule
+                (EquivalenceRule(ReverseRule(product)): the only configuration whose constructor property still
+                raises NotImplementedError after fix 25e10f1, so get_terms cannot run and only shifts() is
+                observable).  Forward product steps, and raw product steps in either direction, count.
       nsteps, reverse_steps, siblings   (input statistics)
-      stack, kinds, start, moves        classes X_0.., kind of the wrapper X_{j+1} over X_j, the walk
+      raw_steps, product_steps, raw_reverse_product_steps   (input statistics: steps taken with a RAW one-child
+                rule, steps over a product, reverse steps over a raw product i.e. a Quotient without sibling)
+      stack, kinds, raws, start, moves  classes X_0.., kind of the wrapper X_{j+1} over X_j, whether the steps
+                between X_j and X_{j+1} use the raw rule, the walk
 
     spec["derived"]:
       "equiv", "equiv_rev"  series: children [m, atom, g] with atom = -1 for an empty class, exactly one
@@ -295,6 +303,10 @@ def derived_plan(spec):
       "path"   series: "children" = [leaf], "tower" = wrappers w_0.. (see _wrap) giving the classes
                X_0 = leaf, X_{j+1} = wrap(X_j, w_j); the path starts at X_start and "moves" walks: 0 = down
                (the equivalence rule X_j -> X_{j-1}), 1 = up (its reverse, X_j -> X_{j+1}).
+               optional "raw" = one 0/1 per wrapper: 1 on a wrapper WITHOUT empty siblings makes the steps over it
+               the RAW one-child rule strat(X_{j+1}) resp. its to_reverse_rule(0) (a plain Rule / ReverseRule,
+               constructor DisjointUnion / CartesianProduct resp. Complement / Quotient) instead of
+               to_equivalence_rule() — what specification_extrator.py:104/113 does for one-child rules.
                (old format: "depth" = that many down moves from the top of a tower of plain unary sums)
                words: X_0 = the word `prefix`, X_1 = the class; same "start"/"moves".
     """
@@ -324,6 +336,8 @@ def derived_plan(spec):
         stack = [Ser(x) for x in nodes]
         kinds = [(list(w) + [0, 0, 0])[2] for w in tower]
         siblings = tower[0][0] if derived != "path" else 0
+        rawspec = list(spec.get("raw") or []) if derived == "path" else []
+        raws = [bool(j < len(rawspec) and rawspec[j] and not (list(w) + [0])[0]) for j, w in enumerate(tower)]
     elif u == "words":
         if spec["strategy"] != "expansion":
             raise ValueError("not a union")
@@ -331,7 +345,7 @@ def derived_plan(spec):
         if any(q in p for q in pats) or not all(any(q in p + x for q in pats) for x in alph):
             raise ValueError("not exactly one non-empty child")
         stack = [AvoidingWithPrefix(p, pats, alph, True), AvoidingWithPrefix(p, pats, alph)]
-        kinds, siblings = [0], len(alph)
+        kinds, siblings, raws = [0], len(alph), [False]
         if derived == "path":
             start, moves = spec["start"], list(spec["moves"])
         else:
@@ -345,33 +359,44 @@ def derived_plan(spec):
         j += 1 if mv else -1
         if not 0 <= j < len(stack):
             raise ValueError("walk leaves the tower")
-        used.append(kinds[j - 1] if mv else kinds[j])
+        lvl = j - 1 if mv else j
+        used.append((kinds[lvl], mv, raws[lvl]))
     if derived == "path":
         form, handed = 6, stack[j]
     elif derived == "equiv":
         form, handed = 4, stack[0]
     else:
         form, handed = 5, stack[1]
-    return {"form": form, "strat": used[0], "handed": handed, "readable": not any(used), "nsteps": len(moves),
-            "reverse_steps": sum(moves), "siblings": siblings, "stack": stack, "kinds": kinds, "start": start,
-            "moves": moves}
+    readable = not any(kind and mv and not raw for kind, mv, raw in used)
+    return {"form": form, "strat": used[0][0], "handed": handed, "readable": readable, "nsteps": len(moves),
+            "reverse_steps": sum(moves), "siblings": siblings, "stack": stack, "kinds": kinds, "raws": raws,
+            "start": start, "moves": moves,
+            "raw_steps": sum(1 for _, _, raw in used if raw),
+            "product_steps": sum(1 for kind, _, _ in used if kind),
+            "raw_reverse_product_steps": sum(1 for kind, mv, raw in used if kind and mv and raw)}
 
 
 def build_derived(spec):
     """
     derived_plan(spec) plus "rule": the derived rule itself, built through the repo's own to_equivalence_rule /
-    to_reverse_rule(0) / EquivalencePathRule.  AssertionError if /repo does not build what the plan describes.
+    to_reverse_rule(0) / EquivalencePathRule (raw steps: the strategy's own one-child rule and its
+    to_reverse_rule(0)).  AssertionError if /repo does not build what the plan describes.
     """
     from comb_spec_searcher.strategies.rule import EquivalencePathRule
 
     plan = derived_plan(spec)
-    stack, kinds = plan["stack"], plan["kinds"]
+    stack, kinds, raws = plan["stack"], plan["kinds"], plan["raws"]
 
     def step(j):
         if spec["universe"] == "words":
             strat = ExpansionStrategy()
         else:
             strat = SerProduct() if kinds[j] else SerUnion()
+        if raws[j]:
+            fwd = strat(stack[j + 1])
+            assert tuple(fwd.children) == (stack[j],), "children %r, planned %r" % (fwd.children, stack[j])
+            assert fwd.is_equivalence(), "not an equivalence rule"
+            return fwd
         return _equivalence(strat, stack[j + 1], stack[j])
 
     j, rules = plan["start"], []
